@@ -1,8 +1,16 @@
 package main
 
 import (
-	_ "verifharness/concur"
+	"os"
+
+	"verifharness/concur"
 	"verifharness/reg"
 )
 
-func main() { reg.Main("concur") }
+func main() {
+	if len(os.Args) > 1 && os.Args[1] == "child" {
+		concur.Child()
+		return
+	}
+	reg.Main("concur")
+}
